@@ -120,3 +120,27 @@ for dp, dn, fn in os.walk(root):
           av.add(n.attr)
 attrs['__all__'] = sorted(av)
 json.dump(attrs, open(os.path.join(os.path.dirname(TABLE), 'canon_attrs.json'), 'w'), indent=0, sort_keys=True)
+
+# phase 2: the local-name table is taken from the reference tree *in normal form* (spelling passes applied: argument spelling,
+# f-strings, annotations ...), because that is the form in which the current tree is compared with it
+import importlib, ginsa.normalize as _N, ginsa.canon as _C
+importlib.reload(_N)
+out2 = {}
+for dp, dn, fn in os.walk(root):
+  for f in sorted(fn):
+    if f.endswith('.py'):
+      p = os.path.join(dp, f)
+      mod = os.path.relpath(p, root)[:-3].replace(os.sep, '.')
+      if mod.endswith('__init__'):
+        mod = mod[:-len('.__init__')] if '.' in mod else '__init__'
+      tree = ast.parse(open(p).read())
+      try:
+        _N.normalize(tree, mod)
+        _N.post_canon(tree, mod)
+      except Exception as e:
+        print('normal form of reference', mod, 'failed:', e)
+        tree = ast.parse(open(p).read())
+      out2[mod] = table_for(tree, mod)
+changed = sum(1 for m in out2 for q in out2[m] if out2[m][q] != out.get(m, {}).get(q))
+json.dump(out2, open(TABLE, 'w'), indent=0)
+print('functions whose fingerprints differ in normal form:', changed)
